@@ -265,6 +265,9 @@ var ruleA4 = &Rule{
 				list      ssa.Value // promise list in the flush routine (or the object holding it, see listField)
 				errArg    ssa.Value
 				listField string // when the completer reads the list from a field of one of its arguments: that field
+				// the field holds the promises (a slice of *promise.Promise): with the object being the swapped portion, it is the list
+				// swapped out together with the columns
+				listIsPromises bool
 			}
 			var comps []completion
 			for _, b := range fn.Blocks {
@@ -314,14 +317,20 @@ var ruleA4 = &Rule{
 									}
 								}
 							}
-							comps = append(comps, completion{ins, list, a, listField})
+							isProm := false
+							if sl != nil {
+								if st, ok := sl.Type().Underlying().(*types.Slice); ok && strings.Contains(st.Elem().String(), "promise.Promise") {
+									isProm = true
+								}
+							}
+							comps = append(comps, completion{ins, list, a, listField, isProm})
 						}
 					}
 				}
 			}
 			// in-place loop
 			if sl, ok := resolvesAllInPlace(fn, E); ok {
-				comps = append(comps, completion{nil, sl, E, ""})
+				comps = append(comps, completion{nil, sl, E, "", false})
 			}
 			add("completer resolves every waiting promise with its argument", len(comps) > 0, fn.Pos(), "no loop (in the flush routine or in a function it calls) that calls Done on every waiting promise with the error it is given")
 			if len(comps) == 0 {
@@ -368,7 +377,7 @@ var ruleA4 = &Rule{
 				}
 			}
 			add("portion comes from swapBuffers", portion != nil, fn.Pos(), "the flush routine does not obtain its portion from swapBuffers")
-			fieldOfPortion := func(fname string) func(ssa.Value) bool {
+			fieldOfPortion := func(fname string) func(ssa.Value) bool { // kept for messages
 				return func(v ssa.Value) bool {
 					var fa *ssa.FieldAddr
 					if u, ok := v.(*ssa.UnOp); ok && u.Op == token.MUL {
@@ -384,20 +393,47 @@ var ruleA4 = &Rule{
 					return dependsOnValue(fa.X, func(x ssa.Value) bool { return x == portion }, map[ssa.Value]bool{}, 0)
 				}
 			}
+			// the promise list of the portion: a field of the swapped portion whose elements are promises (whatever it is called)
+			promisesOfPortion := func(v ssa.Value) bool {
+				u, ok := v.(*ssa.UnOp)
+				if !ok || u.Op != token.MUL {
+					return false
+				}
+				fa, ok := u.X.(*ssa.FieldAddr)
+				if !ok {
+					return false
+				}
+				st, ok := u.Type().Underlying().(*types.Slice)
+				if !ok || !strings.Contains(st.Elem().String(), "promise.Promise") {
+					return false
+				}
+				return dependsOnValue(fa.X, func(x ssa.Value) bool { return x == portion }, map[ssa.Value]bool{}, 0)
+			}
+			_ = fieldOfPortion
 			okWaiting := portion != nil
 			for _, cp := range comps {
 				if cp.listField != "" {
-					if cp.listField != "res" || cp.list == nil || !dependsOnValue(cp.list, func(x ssa.Value) bool { return x == portion }, map[ssa.Value]bool{}, 0) {
+					if !cp.listIsPromises || cp.list == nil || !dependsOnValue(cp.list, func(x ssa.Value) bool { return x == portion }, map[ssa.Value]bool{}, 0) {
 						okWaiting = false
 					}
 					continue
 				}
-				if cp.list == nil || !dependsOnValue(cp.list, fieldOfPortion("res"), map[ssa.Value]bool{}, 0) {
+				if cp.list == nil || !dependsOnValue(cp.list, promisesOfPortion, map[ssa.Value]bool{}, 0) {
 					okWaiting = false
 				}
 			}
 			add("waiting list is a copy of the swapped portion's promises", okWaiting, fn.Pos(), "the promises resolved with the INSERT outcome must be exactly those swapped out together with the columns that are sent")
-			okCols := portion != nil && dependsOnValue(fs.query, fieldOfPortion("cols"), map[ssa.Value]bool{}, 0)
+			okCols := portion != nil && dependsOnValue(fs.query, func(v ssa.Value) bool {
+				u, ok := v.(*ssa.UnOp)
+				if !ok || u.Op != token.MUL {
+					return false
+				}
+				fa, ok := u.X.(*ssa.FieldAddr)
+				if !ok || !isColPoolResSlice(u.Type()) {
+					return false
+				}
+				return dependsOnValue(fa.X, func(x ssa.Value) bool { return x == portion }, map[ssa.Value]bool{}, 0)
+			}, map[ssa.Value]bool{}, 0)
 			add("block is built from the swapped portion's columns", okCols, fn.Pos(), "the block sent must be built from the columns swapped out together with the promises")
 		}
 		if !foundFlush {
